@@ -326,7 +326,7 @@ def run_forward(case):
     cipher = getattr(SymmetricKeyAlgorithm, case['cipher'])
     e = pgpy_encrypt(m, case)
     raw = bytes(e)
-    if not e.is_encrypted or e.is_signed and False:
+    if not e.is_encrypted:
         fails.append('result of encrypt is not an encrypted message')
     facts['len'] = len(raw)
     # grammar: ESK packets then exactly one SEIPD (RFC 4880 11.3)
